@@ -37,7 +37,7 @@ def main():
         sys.exit(rc)
 
     # ---- step 1: Lean side
-    lean = LeanSide(pid, mod.LEAN_MODULES + ["Pff.Driver"], mod.PROP_MODULE, mod.THEOREMS)
+    lean = LeanSide(pid, mod.LEAN_MODULES + ["Pff.Driver", "pffdriver"], mod.PROP_MODULE, mod.THEOREMS)
     try:
         lean.run()
     except Infra as e:
